@@ -460,6 +460,12 @@ type Kernel struct {
 	drainFns  []func()
 	idle      []*Task // tasks waiting for quiescence
 	awaiting  []awaiter
+	// idle-cycle detection: a service with an idle timeout and an open
+	// connection re-arms its accept deadline for ever; when nothing else has
+	// happened between two expiries the world is quiescent modulo that cycle
+	significant uint64
+	timeoutTask *Task
+	idleCycle   bool
 }
 
 var theKernel *Kernel
@@ -640,6 +646,29 @@ func (k *Kernel) Sites() []string {
 		out = append(out, s)
 	}
 	sort.Strings(out)
+	return out
+}
+
+// TaskInfo describes a live task (for oracles).
+type TaskInfo struct {
+	ID      string
+	Label   string
+	Root    bool
+	Blocked string // "" = runnable or blocked in the library's own synchronisation
+	InSim   bool   // parked at a simulator call that has not completed
+	Site    string
+}
+
+// LiveTasks lists the tasks that have not finished.
+func (k *Kernel) LiveTasks() []TaskInfo {
+	var out []TaskInfo
+	for _, t := range k.tasks {
+		st := t.loadState()
+		if st == stDone {
+			continue
+		}
+		out = append(out, TaskInfo{ID: t.id, Label: t.label, Root: t.root, Blocked: t.blocked, InSim: st == stSyscall && !t.ready, Site: t.lastSite})
+	}
 	return out
 }
 
@@ -966,21 +995,10 @@ func (k *Kernel) Run() {
 				raceOn()
 				continue
 			}
-			// quiescent
-			k.quiesced++
-			k.trace("quiescent #%d", k.quiesced)
-			if len(k.idle) > 0 {
-				for _, t := range k.idle {
-					k.complete(t, result{})
-				}
-				k.idle = nil
-				continue
+			if !k.quiesce() {
+				return
 			}
-			if k.OnQuiesce != nil && k.OnQuiesce(k) {
-				continue
-			}
-			k.Stop("quiescent")
-			return
+			continue
 		}
 		k.step++
 		curFirst := len(run) > 0 && run[0] == k.cur
@@ -989,7 +1007,29 @@ func (k *Kernel) Run() {
 			// the event
 			k.events.pop()
 			k.trace("event %s", ev.name)
+			if !strings.HasPrefix(ev.name, "accept-deadline") {
+				k.significant++
+			}
 			ev.fn()
+			if k.idleCycle {
+				k.idleCycle = false
+				other := false
+				for _, e := range k.events {
+					if (e.dead == nil || !*e.dead) && !strings.HasPrefix(e.name, "accept-deadline") {
+						other = true
+						break
+					}
+				}
+				if len(k.runnable()) > 1 {
+					other = true
+				}
+				if other {
+					continue
+				}
+				if !k.quiesce() {
+					return
+				}
+			}
 			continue
 		}
 		t := run[idx]
@@ -1004,6 +1044,9 @@ func (k *Kernel) Run() {
 			k.sigMix(pair)
 		}
 		k.cur = t
+		if t != k.timeoutTask {
+			k.significant++
+		}
 		// nobody but the released task may pass a yield
 		for _, o := range k.tasks {
 			if o != t {
@@ -1013,6 +1056,27 @@ func (k *Kernel) Run() {
 		k.trace("run %s %s", t.id, t.lastSite)
 		k.release(t, k.budget())
 	}
+}
+
+// quiesce handles a quiescent world: tasks waiting for quiescence are
+// released; if there are none the run is over. It reports whether the run continues.
+func (k *Kernel) quiesce() bool {
+	k.quiesced++
+	k.trace("quiescent #%d", k.quiesced)
+	if len(k.idle) > 0 {
+		for _, t := range k.idle {
+			k.complete(t, result{})
+		}
+		k.idle = nil
+		k.significant++
+		return true
+	}
+	if k.OnQuiesce != nil && k.OnQuiesce(k) {
+		k.significant++
+		return true
+	}
+	k.Stop("quiescent")
+	return false
 }
 
 // Drain ends the run: the world closes (every blocked and every future
